@@ -120,6 +120,23 @@ def render(rng, toks, line):
     return "".join(out).rstrip()
 
 
+def render_tight(toks):
+    """no layout at all except where two word-like tokens (or a comment start) would otherwise fuse: adjacent
+    punctuators DO fuse (`]` `]` -> `]]`, `>` `>` -> `>>`, `:` `:` -> `::`), also with the delimiters of the position"""
+    out = ""
+    for t in toks:
+        if out and t:
+            a, b = out[-1], t[0]
+            if ((a.isalnum() or a == "_") and (b.isalnum() or b == "_")) or (a == "/" and b in "/*"):
+                out += " "
+        out += t
+    return out
+
+
+def squeeze(parts):
+    return "".join("".join(parts).split())
+
+
 def top_level_open_angle(toks):
     """a `<` at bracket depth 0 that no `>` at depth 0 closes (the listed `<` heuristic finding)"""
     depth = 0
@@ -169,6 +186,7 @@ def run(ctx):
                 fails.append({"input": src, "diff": "a position without an expression exposes %r" % [toks_of(g) for g in got]})
         except Exception as e:  # noqa
             fails.append({"input": src, "diff": "position not found: %r" % e})
+    ntight = ntight_rejected = 0
     for i in range(n):
         tmpl, get, wrap, line, noangle = P[i % len(P)]
         if tmpl not in base:
@@ -177,7 +195,15 @@ def run(ctx):
         toks = gen_text.expression(rng, rng.choice([0, 0, 1, 2]), angle_ops=angle_ops)
         if noangle and (">" in toks[:1]):
             continue
-        text = tmpl % (render(rng, toks, line) if line else " " + render(rng, toks, line) + " ")
+        # one case in seven is written without any layout: neighbouring punctuators fuse into other tokens
+        # (also across the delimiters of the position); such an input may be rejected, but when it is accepted
+        # the value must still consist of exactly the characters of the expression
+        tight = (not line) and i % 7 == 3
+        if tight:
+            rt = render_tight(toks)
+            text = tmpl % ((" " + rt) if (rt[:1].isalnum() or rt[:1] == "_") else rt)
+        else:
+            text = tmpl % (render(rng, toks, line) if line else " " + render(rng, toks, line) + " ")
         nontrivial = len(toks) >= 5 and any(t in "([{<" for t in toks)
         ctx.count(text, nontrivial=nontrivial)
         texts.append(text)
@@ -187,7 +213,11 @@ def run(ctx):
             d = parse_string(text)
             v = get(d)
             got = toks_of(v)
-            if got != wrap(toks):
+            if tight:
+                ntight += 1
+                if got is None or squeeze(got) != squeeze(wrap(toks)):
+                    f = {"diff": "value written without layout: exposed characters %r, written %r" % (None if got is None else squeeze(got), squeeze(wrap(toks)))}
+            elif got != wrap(toks):
                 f = {"diff": "value tokens %r, expected %r" % (got, wrap(toks))}
             else:
                 # nothing outside the value may differ from the same declaration with the value `1`
@@ -195,9 +225,15 @@ def run(ctx):
                 if d != base[tmpl]:
                     f = {"diff": "the rest of the result differs from the declaration written with the value `1`"}
         except CxxParseError as e:
-            f = {"diff": "rejected: %s" % str(e)[:200]}
+            if tight:
+                ntight_rejected += 1   # fused tokens the parser does not take apart: no value is exposed
+            else:
+                f = {"diff": "rejected: %s" % str(e)[:200]}
         except (AttributeError, IndexError, KeyError, TypeError) as e:
-            f = {"diff": "value position not found in the result (%s: %s)" % (type(e).__name__, e)}
+            if tight:
+                ntight_rejected += 1   # parsed as something else (e.g. `>>` closing two lists)
+            else:
+                f = {"diff": "value position not found in the result (%s: %s)" % (type(e).__name__, e)}
         if f:
             f.update({"input": text, "position": tmpl, "expr": toks})
             if finding:
@@ -207,7 +243,8 @@ def run(ctx):
     for f in fails:
         if f.get("finding"):
             kn.setdefault(f["finding"], f)
-    ctx.oracle("positions", n, list(kn.values()) + [f for f in fails if not f.get("finding")])
+    ctx.oracle("positions", n, list(kn.values()) + [f for f in fails if not f.get("finding")],
+               note="%d values written without layout were accepted and checked character by character, %d more were rejected or parsed as another construct" % (ntight, ntight_rejected))
     ctx.sample({"text": texts[0]})
     pcommon.parse_corr(ctx, "parse[values]", texts[: ctx.budget(300, 8000)] + [t for t in pcommon.corpus()][: ctx.budget(60, 300)], proj=pcommon.proj_values)
 
